@@ -21,12 +21,7 @@ verus! {
 #[verifier::external_type_specification] #[verifier::external_body] pub struct ExIntegrity(Integrity);
 #[verifier::external_type_specification] #[verifier::external_body] pub struct ExEngineWorker(EngineWorker);
 #[verifier::external_type_specification] #[verifier::external_body] pub struct ExOutputBuf(OutputBuf);
-pub assume_specification [<Scru128Id as PartialEq>::eq] (a: &Scru128Id, b: &Scru128Id) -> (r: bool) ensures r == (id_u128(*a) == id_u128(*b));
 pub assume_specification [<Scru128Id as PartialOrd>::le] (a: &Scru128Id, b: &Scru128Id) -> (r: bool) ensures r == (id_u128(*a) <= id_u128(*b));
-impl vstd::std_specs::cmp::PartialEqSpecImpl for Scru128Id {
-    open spec fn obeys_eq_spec() -> bool { true }
-    open spec fn eq_spec(&self, other: &Scru128Id) -> bool { id_u128(*self) == id_u128(*other) }
-}
 // Display of an id: an injective text rendering (ASSUMED: scru128's 25-digit base-36 form)
 pub uninterp spec fn id_str(x: u128) -> Seq<char>;
 pub broadcast proof fn axiom_id_str_inj(a: u128, b: u128) ensures #[trigger] id_str(a) == #[trigger] id_str(b) ==> a == b { admit(); }
@@ -104,6 +99,15 @@ pub assume_specification<T, F: FnOnce() -> T> [Option::<T>::get_or_insert_with] 
 //@@ item file=src/handlers/handler.rs struct=HandlerConfig
 //@@ end
 //@@ item file=src/handlers/handler.rs enum=ResumeFrom
+//@@ end
+//@@include _lemmas_be.rs
+//@@ item file=src/store/mod.rs const=ZERO_CONTEXT
+//@@ const_ensures
+    ensures id_u128(ZERO_CONTEXT) == 0,
+//@@ prologue
+    let z =
+//@@ epilogue
+    ; proof { lemma_be16_zero(id_u128(z)); assert(id_bytes(z) =~= Seq::new(16, |i: int| 0u8)); } z
 //@@ end
 
 // ---- bon builder of ReadOptions (ASSUMED): unset fields take their defaults (follow Off, tail false, rest None) ----
